@@ -12,6 +12,7 @@ EXPLANATION = (
     "undischarged may-panic site in the interpreter; failures are `?` on Options. R4 determinism: no unordered iteration, clock or RNG in melvm; the heap map is only accessed by key. "
     "R5 result: run_to_end loops `step()?` while pc < len and returns stack.pop(). R6 value layout: Transaction/Header/CoinData/CoinDataHeight/CoinID are presented to covenants as "
     "vectors whose positions follow the declaration order of the melstructs types. R7 bit-bounded exponentiation: each iteration of the squaring loop consumes one unit of k through checked_sub(1)?. R8 operand narrowing: every place melvm keeps only part of a 256-bit operand (U256::low/as_uN) is unreachable when the whole value exceeds the target type, except the three instructions whose specified behaviour is truncation."
+    " R9 bounds on full width: no operand of a comparison in the instruction code is a wrapping (`as uN`) or saturating (`uN::try_from(..).unwrap_or(..)`) narrowing of a non-constant length / count / index."
 )
 NOT_DECIDED = ["conformance to the external MelVM specification as a whole (no executable specification in the repository)", "CatVec vector/byte-string operations' out-of-range behaviour beyond the guards checked in C11.R5 and R3"]
 ASSUMPTIONS = ["ethnum::U256 overflowing_*/checked_*/wrapping_* have their documented meaning", "tmelcrypt::Ed25519PK::verify / hash_single as documented"]
